@@ -1,9 +1,10 @@
 (* Extract_ht.v - extraction of the hash-table / dictionary models (slice ht) to model_ht.ml *)
 From Coq Require Extraction ExtrOcamlBasic.
-From LY Require Import Base HashFn HashTable Dict.
+From LY Require Import Base HashFn HashTable Dict Own.
 Extraction Language OCaml.
 Extraction "model_ht.ml"
   N.add N.mul N.div N.modulo N.sub Z.add Z.mul Z.opp Z.of_N Z.abs_N Z.sub Z.ltb
   HashFn.lyht_hash HashFn.lyht_hash_multi
   HashTable.lyht_new HashTable.nht_step HashTable.nht_run
-  Dict.lydict_init Dict.dict_step Dict.dict_run.
+  Dict.lydict_init Dict.dict_step Dict.dict_run
+  Own.own_script_delta.
